@@ -7,15 +7,18 @@ TARGETS = ['pytezos.rpc.node.RpcNode.request', 'pytezos.rpc.node._is_transient_r
 STUBS = ['json.dumps / pformat inside log lines -> constant (log formatting is not the subject)',
          'requests.request -> scripted fake response (class chosen by solver, status code symbolic inside the class)',
          'pytezos.rpc.node.sleep -> records the delay']
-BOUNDS = 'response sequences of length <= 7 over 9 response classes; status code any integer inside the class range'
-OUTSIDE = ['response bodies outside the 9 classes (e.g. JSON bodies that are not lists)', 'HTTP transport, timeouts raised by requests']
+BOUNDS = 'response sequences of length <= 7 over 12 response classes (incl. two-error bodies); status code any integer inside the class range'
+OUTSIDE = ['response bodies outside the 12 classes (e.g. JSON bodies that are not lists)', 'HTTP transport, timeouts raised by requests']
 ASSUMPTIONS = ['transient = 5xx whose JSON errors are kind=temporary and not proto.*, or 5xx whose text mentions prevalidator.ml (as the property states)']
 
 # class -> (lo, hi, transient, kind)
-OK, C401, C404, C4XX, T_JSON, P_JSON, PROTO_T, T_TEXT, NONJSON = range(9)
+OK, C401, C404, C4XX, T_JSON, P_JSON, PROTO_T, T_TEXT, NONJSON, TEMP_THEN_PROTO, PROTO_THEN_TEMP, PERM_THEN_TEMP = range(12)
+NCLS = 12
 CLASS_NAMES = ['200', '401', '404', '4xx', '5xx-json-temporary', '5xx-json-permanent', '5xx-json-proto-temporary',
-               '5xx-prevalidator-text', '5xx-non-json']
-TRANSIENT = {T_JSON, T_TEXT}
+               '5xx-prevalidator-text', '5xx-non-json', '5xx-json-[temporary,proto]', '5xx-json-[proto-temporary,temporary]',
+               '5xx-json-[permanent,temporary]']
+TRANSIENT = {T_JSON, T_TEXT, PERM_THEN_TEMP}
+JSON_CLASSES = (OK, C4XX, T_JSON, P_JSON, PROTO_T, TEMP_THEN_PROTO, PROTO_THEN_TEMP, PERM_THEN_TEMP)
 MAXLEN = 7
 
 
@@ -24,7 +27,7 @@ class _Resp:
         self.status_code = status
         self.seq = seq
         self.cls = cls
-        if cls in (OK, C4XX, T_JSON, P_JSON, PROTO_T):
+        if cls in JSON_CLASSES:
             self.headers = {'content-type': 'application/json'}
         else:
             self.headers = {'content-type': 'text/plain'}
@@ -38,6 +41,15 @@ class _Resp:
             self._json = [{'id': 'node.state.broken', 'kind': 'permanent', 'seq': seq}]
         elif cls == PROTO_T:
             self._json = [{'id': 'proto.alpha.michelson_v1.runtime_error', 'kind': 'temporary', 'seq': seq}]
+        elif cls == TEMP_THEN_PROTO:
+            self._json = [{'id': 'node.prevalidation.busy', 'kind': 'temporary', 'seq': -1},
+                          {'id': 'proto.alpha.contract.balance_too_low', 'kind': 'permanent', 'seq': seq}]
+        elif cls == PROTO_THEN_TEMP:
+            self._json = [{'id': 'proto.alpha.gas_exhausted.operation', 'kind': 'temporary', 'seq': -1},
+                          {'id': 'node.prevalidation.busy', 'kind': 'temporary', 'seq': seq}]
+        elif cls == PERM_THEN_TEMP:
+            self._json = [{'id': 'node.state.broken', 'kind': 'permanent', 'seq': -1},
+                          {'id': 'node.prevalidation.busy', 'kind': 'temporary', 'seq': seq}]
         else:
             self._json = None
         if cls == T_TEXT:
@@ -142,7 +154,7 @@ def check(classes, statuses):
 
 def pick(c):
     """Fork once on the class selector so that everything downstream sees a concrete class."""
-    for k in range(9):
+    for k in range(NCLS):
         if c == k:
             return k
     assume(False)
@@ -179,7 +191,7 @@ def concrete(P, w):
     for i in range(MAXLEN):
         if not live:
             classes[i], statuses[i] = OK, 200
-        elif not (0 <= classes[i] <= 8 and in_class(classes[i], statuses[i])):
+        elif not (0 <= classes[i] < NCLS and in_class(classes[i], statuses[i])):
             return {'ok': True, 'note': 'witness outside the precondition'}
         elif not (classes[i] in TRANSIENT and i < 5):
             live = False
@@ -189,15 +201,15 @@ def concrete(P, w):
 
 def obligations(tier):
     obs = []
-    nt = [c for c in range(9) if c not in TRANSIENT]
+    nt = [c for c in range(NCLS) if c not in TRANSIENT]
     tr = sorted(TRANSIENT)
     prefixes = [[c] for c in nt]
     prefixes += [[a, b] for a in tr for b in nt]
-    prefixes += [[a, b, c] for a in tr for b in tr for c in range(9)]
+    prefixes += [[a, b, c] for a in tr for b in tr for c in range(NCLS)]
     for p in prefixes:
         obs.append(Ob(name='retry/first=' + '+'.join(CLASS_NAMES[c] for c in p), engine='xh', sym=sym, concrete=concrete,
                       P={'prefix': p}, timeout=60 if tier == 'quick' else 240,
-                      bounds='first responses fixed to the named classes, the remaining (up to 7 in total) symbolic over 9 classes; '
+                      bounds='first responses fixed to the named classes, the remaining (up to 7 in total) symbolic over 12 classes; '
                              'status codes symbolic inside each class',
                       targets=TARGETS, stubs=STUBS))
     return obs
